@@ -257,9 +257,13 @@ impl<'r> Printer<'r> {
                 let omit = matches!(**extends, AST::Null) && !self.style.chance(1, 5);
                 if !omit {
                     self.t("extends");
-                    // any expression is allowed; keep it at operand level so that the member
-                    // list's `begin` cannot be read as part of it
-                    self.expr(extends, OPERAND, false);
+                    // any expression is allowed by the grammar; the plain styles keep it at operand
+                    // level, the varied style also writes it bare
+                    if self.style.chance(1, 2) && !matches!(**extends, AST::Object { .. }) {
+                        self.expr(extends, EXPR, false);
+                    } else {
+                        self.expr(extends, OPERAND, false);
+                    }
                 }
                 self.t("begin");
                 let n = members.len();
